@@ -10,6 +10,18 @@ import sys
 
 ROOT = os.path.dirname(os.path.abspath(__file__))
 EXTRA = {   # seeds whose own property's check does not report them, with the check that does and why
+    "C11-m2": "reported by C12 (`C12/deliver[...]` :: pending: same responses in the same order): the change is in the executor's pending-response list, outside C11's quantifier (no interleavings)",
+    "C11-r2m3": "reported by C12 (same change as C11-m2)",
+    "C11-r3m3": "reported by C12 (same change as C11-m2)",
+    "C13-r2m3": "also reported by C12 (pending-response list)",
+    "C16-m2": "neutralised by the C16 repair 84f2381: the range checks added there reject what this change let through, so the property holds with it",
+    "C16-m3": "neutralised by the C16 repair 84f2381 (as C16-m2)",
+    "C05-r2m2": "also reported by C03 (re-introduces the scratch-register defect of 52d6f3e)",
+    "C07-r2m1": "reported by C08 (`C08/shapes[...]` :: classical-registers-named-by-the-source-are-equal): a classical Q register is clobbered, not a gate decomposition",
+    "C07-r3m2": "reported by C08 (as C07-r2m1)",
+    "C02-r2m1": "also reported by C01 (re-encode after update)",
+    "C02-r2m3": "also reported by C01 (flavour table)",
+    "C08-r2m3": "also reported by C07 (rotation obligations)",
 }
 
 
